@@ -1,4 +1,4 @@
-CONSTANTS Behaviours = {"valid", "grantedWithMods", "wrongNonce", "noNonce", "wrongImprint", "rejected", "waiting", "revocationWarning", "statusUnknown", "badTokenSig", "noCert", "httpError", "hang", "garbage", "trailingBytes"}  MaxUrls = 3  CacheModes = {"off", "miss", "hitGood", "hitGarbage", "hitWrong"}  Variant = "code"
+CONSTANTS Behaviours = {"valid", "grantedWithMods", "wrongNonce", "noNonce", "wrongImprint", "rejected", "waiting", "revocationWarning", "statusUnknown", "badTokenSig", "noCert", "httpError", "hang", "stallBody", "garbage", "trailingBytes"}  MaxUrls = 3  CacheModes = {"off", "miss", "hitGood", "hitGarbage", "hitWrong"}  Variant = "code"
 SPECIFICATION Spec
 INVARIANTS OnlyGenuine NeverSilentlyOmitted FirstGenuineWins TriedInOrder GenuineSuffices
 CHECK_DEADLOCK FALSE
